@@ -486,6 +486,53 @@ def C09_ok_blocks(f):
             and st['rv'].get('adt', '').endswith('result::Result') and st['rv'].get('variant') == 'Ok']
 
 
+def display_writes_every_symbol(db, g):
+    """None when Display::fmt writes as_char(self.data[k]) for k = 0, 1, .., len - 1 in order, stopping only on a writer error; else a reason.
+    Spellings: `for c in data.iter() { f.write_char(c.as_char())? }`, an index loop, `data.iter().try_for_each(|c| f.write_char(c.as_char()))`."""
+    from lm import reduce as RD, iteralg as IA
+    R = X.Rec(g)
+    C = RD.RCanon(db, g, R)
+    data = ('fld', ('p', 1), 'data')
+    writes = []          # (canonical written char, loop id, how)
+    for bi, t in g.calls():
+        c = g.callee_short(t) or ''
+        if c.endswith('Write::write_char'):
+            writes.append((C.canon(R.at(bi).operand(t['args'][1])), bi, 'loop'))
+        elif c.endswith('Iterator::try_for_each') and len(t['args']) == 2:
+            e = norm(R.call(t))
+            L = RD._fresh()
+            el = C.elem_of(e[2][0], L)
+            body = RD.apply_fn(db, e[2][1], [el[0]]) if el is not None else None
+            if body is None or not (body[0] == 'call' and body[1].endswith('Write::write_char') and len(body[2]) == 2):
+                return 'reason=unrecognised-shape: try_for_each closure is not a single write_char'
+            if t['dest']['l'] != 0 or t['dest']['pr']:
+                return 'the result of try_for_each is not what fmt returns (a writer error would be dropped)'
+            C.extents[L] = el[1]
+            writes.append((C.canon(body[2][1]), None, 'try_for_each'))
+    if len(writes) != 1:
+        return f'reason=unrecognised-shape: {len(writes)} write_char sites'
+    ch, bi, how = writes[0]
+    b = m(('call~', 'Symbol::as_char', (('at', '$d', '$k'),)), ch)
+    if b is None or b['$d'] != data or not IA.is_pos(b['$k']):
+        return f'the written character is {X.show(ch, 100)}, not as_char(self.data[k]) for the k-th write'
+    ext = C.extents.get(b['$k'][1])
+    whole = ext in ([('len', data)], [('sub', ('len', data), ('k', 0))]) or (bool(ext) and len(ext) == 1 and ext[0][0] == 'sub' and ext[0][2] == ('k', 0) and common.is_len_of(ext[0][1], data))
+    if not whole:
+        return f'the writes cover {ext}, not every symbol of the sequence'
+    if how == 'loop':
+        lid = b['$k'][1]
+        h = common.loop_of_elem(g, ('elem', None, lid)) if not isinstance(lid, tuple) else (lid[1] if lid[0] == 'while' else None)
+        Ls = [L_ for L_ in g.loops() if L_['header'] == h]
+        if not Ls:
+            return 'reason=unrecognised-shape: loop of the writes not found'
+        ex = RD._exhaustion_exit(g, Ls[0])
+        can = g.postdominators()
+        others = [(x, y) for x, y in Ls[0]['exits'] if (x, y) != ex and y in can]
+        if ex is None or not all(g.dominates(bi, x) for x, _ in others):
+            return 'the loop can stop before the last symbol for a reason other than a writer error'
+    return None
+
+
 def r55_56(db, ctx):
     ctx.rule('R5.5', 'generic encoder: dst[i] = from_ascii(seq[i])? for every i of enumerate(seq), after assert_eq!(seq.len(), dst.len())')
     fs = [g for g in db.by_short.get('lightmotif::pli::Encode::encode_into', []) if g.raw.get('trait_default_of')]
@@ -526,10 +573,8 @@ def r55_56(db, ctx):
     (ctx.ok if ok else ctx.fail)('R5.6', f, 'EncodedSequence::encode = Pipeline::dispatch().encode(..)', *([[]] if ok else [f'callees {sorted(c for c in cs if c and "lightmotif" in c)}']))
     g = [x for x in db.fns.values() if x.path.startswith('<lightmotif::seq::EncodedSequence<A> as core::fmt::Display>::fmt')]
     if g:
-        R = X.Rec(g[0])
-        wc = [(bi, t) for bi, t in g[0].calls() if (g[0].callee_short(t) or '').endswith('Write::write_char')]
-        ok = len(wc) == 1 and 'Symbol::as_char(elem(core::slice::iter(' in X.canon(norm(R.operand(wc[0][1]['args'][1])))
-        (ctx.ok if ok else ctx.fail)('R5.6', g[0], 'Display writes as_char(symbol) for every symbol in order', *([['round trip follows from R5.1(a)']] if ok else ['Display does not write as_char of each symbol']))
+        why = display_writes_every_symbol(db, g[0])
+        (ctx.ok if why is None else ctx.fail)('R5.6', g[0], 'Display writes as_char(symbol) for every symbol in order', *([['round trip follows from R5.1(a)']] if why is None else [why]))
     from . import C01
     before = len(ctx.obligations)
     vb = len(ctx.violations)
